@@ -54,6 +54,9 @@ CHECKS = {
  "C12": dict(cat="model_checking", tech="TLA+ Affinity spec (transport table with object identity and the exact key discipline): TLC exhaustive over all request/response interleavings; TLC-sampled interleavings replayed on real client connections to a real TCP listener with the loop barrier as scheduler gate; Trace_Affinity judges where every response was read",
     text="Affinity.tla model-checked over 3 connections x 5 transactions x {1xx then final, final only} with equal and different sent-by (36k states each); a one-object-per-peer design is shown to violate AffinityInv. TLC-sampled interleavings and random runs (2-8 connections from one address, 1-20 transactions each, received-support on/off, rport, sent-by as address or host name) on a real TCPServerTransport; where each relayed response is read is observed at system-call level, a listener on every sent-by address catches new connections.",
     note=TB + "retransmitted finals are not claimed; branches pairwise distinct.", ref="5/C12"),
+ "C20": dict(cat="fault_enumeration", tech="TLA+ FailoverOps spec: TLC checks the two-attempt reconnect loops against the declarative Demand on the full fault product and emits it; every pattern is executed on the real FailOverClientTransport / TCPClientTransport / TCPBackend with scripted connections; Trace_Failover judges every send",
+    text="The fault space of the quantifier is finite and fully enumerated in the model (45 patterns x message index) and on the code (client transports and TCP backends): returned error, connection(s) on which the complete message was observed, connections dialled, writes on a forgotten primary, elapsed time are judged against Demand (Fallback, Truthful, Once, NoHang, Straight).",
+    note=TB + "accept-then-reset may report either outcome; listeners are on loopback (a black-holed destination cannot be produced in this sandbox).", ref="5/C20"),
 }
 NA_REASON = "check not built yet (work in progress; see DESIGN.md section 9)"
 
